@@ -235,7 +235,9 @@ def _run(prop, tier, seed, args, t0):
         # 3. audit
         if build_ok:
             audit_rows = lean_bridge.audit(modules, mod.NAMESPACE)
-            obl = json.load(open(os.path.join(lean_bridge.LEAN_DIR, 'obligations.json'))).get(prop, [])
+            obl_path = os.path.join(lean_bridge.LEAN_DIR, 'obligations', f'{prop}.json')
+            obl = json.load(open(obl_path)) if os.path.exists(obl_path) else []
+            stages['obligation_list'] = len(obl)
             have = {r['theorem'] for r in audit_rows}
             for name in obl:
                 if name not in have:
@@ -260,8 +262,13 @@ def _run(prop, tier, seed, args, t0):
     ctx = Ctx(prop, tier, seed, scale, lean_bridge.Driver(mod.DRIVER))
     ctx.shim = shim
     corr_error = None
+    import contextlib
+    quiet = os.environ.get('HDV_VERBOSE') != '1'
+    devnull = open(os.devnull, 'w')
     try:
-        mod.run(ctx)
+        with (contextlib.redirect_stdout(devnull) if quiet else contextlib.nullcontext()), \
+                (contextlib.redirect_stderr(devnull) if quiet else contextlib.nullcontext()):
+            mod.run(ctx)
     except Exception:  # noqa: BLE001
         corr_error = traceback.format_exc()
         ctx.note('correspondence crashed: ' + corr_error[-2000:])
@@ -297,10 +304,12 @@ def _run(prop, tier, seed, args, t0):
         sctx.model_available = ctx.model_available
         sctx.focus = [d['case'] for d in ctx.disagreements + ctx.l2_disagreements]
         try:
-            if hasattr(mod, 'search'):
-                mod.search(sctx, broken)
-            else:
-                mod.run(sctx)
+            with (contextlib.redirect_stdout(devnull) if quiet else contextlib.nullcontext()), \
+                    (contextlib.redirect_stderr(devnull) if quiet else contextlib.nullcontext()):
+                if hasattr(mod, 'search'):
+                    mod.search(sctx, broken)
+                else:
+                    mod.run(sctx)
         except Exception:  # noqa: BLE001
             sctx.note('search crashed: ' + traceback.format_exc()[-1500:])
         for fl in sctx.failures:
